@@ -346,9 +346,12 @@ func c05Case(c *core.Ctx, rng *rand.Rand, dir string, idx int, a *apiTrack, st *
 		{"Remove(d)", func() error { return w.Remove(d) }},
 		{"Add(d)", func() error { return w.Add(d) }},
 		{"Remove(new)", func() error { return w.Remove(nd) }},
+		// the unexported options, through the hook: same path, other follow mode / other operation set
+		{"AddWith(d,no-follow)", func() error { return w.AddWith(d, fsnotify.VerifWithNoFollow()) }},
+		{"AddWith(f,ops)", func() error { return w.AddWith(f, fsnotify.VerifWithOps(fsnotify.Write|fsnotify.Chmod)) }},
 	}
 	rng.Shuffle(len(calls), func(i, j int) { calls[i], calls[j] = calls[j], calls[i] })
-	for _, cl := range calls[:2+rng.Intn(4)] {
+	for _, cl := range calls[:2+rng.Intn(6)] {
 		_, ok, dump := api(cl.n, cl.f)
 		if !ok {
 			return hung(cl.n, dump)
